@@ -358,3 +358,116 @@ func TestVerifBounded_LinkListing(t *testing.T) {
 		t.Fail()
 	}
 }
+
+// Names containing the pattern characters of SQL GLOB ('?', '*', '[...]') next to siblings those patterns would match:
+// listings and subtree queries compare names literally.
+var patternAlphabet = []string{"/v?", "/v1", "/v1/x", "/v?/y", "/p[1]", "/p1", "/p[1]/z", "/p1/z", "/s*", "/sa", "/sa/x", "/s*/w"}
+
+func TestVerifBounded_PatternChars(t *testing.T) {
+	dir := t.TempDir()
+	cases, bad := 0, 0
+	ctx := context.Background()
+	queries := append([]string{"/"}, patternAlphabet...)
+	for _, rel := range []bool{false, true} {
+		boundedRelative = rel
+		for _, view := range boundedViewsOver(patternAlphabet, boundedMaxRows()) {
+			p := boundedPersister(t, dir, view)
+			for _, q := range queries {
+				for _, direct := range []bool{true, false} {
+					var got []*config.Header
+					var err error
+					if direct {
+						got, err = p.GetHeaderDirectChildren(ctx, q, -1)
+					} else {
+						got, err = p.GetHeaderChildren(ctx, q)
+					}
+					var want []string
+					for _, r := range view {
+						if !r.deleted && ((direct && directChild(q, r.name)) || (!direct && properDescendant(q, r.name))) {
+							want = append(want, storedName(r.name))
+						}
+					}
+					sort.Strings(want)
+					cases++
+					if err != nil || strings.Join(names(got), "|") != strings.Join(want, "|") {
+						if bad < 8 {
+							fmt.Printf("BOUNDED-VIOLATION sql:PatternChars relative-index=%v direct=%v view=%v query=%q err=%v got=%q want=%q\n", rel, direct, view, q, err, names(got), want)
+						}
+						bad++
+					}
+				}
+			}
+			p.sqlite.DB.Close()
+		}
+	}
+	boundedRelative = false
+	fmt.Printf("BOUNDED-OK sql:PatternChars cases=%d failing=%d maxrows=%d alphabet=%d\n", cases, bad, boundedMaxRows(), len(patternAlphabet))
+	if bad > 0 {
+		t.Fail()
+	}
+}
+
+// GetLastIndexedRecordAndBlock: the position the index reports as last written is the greatest LAST-KNOWN position of
+// any row (live or tombstoned), whatever the rows' content positions are.
+func TestVerifBounded_LastIndexed(t *testing.T) {
+	dir := t.TempDir()
+	cases, bad := 0, 0
+	ctx := context.Background()
+	type pos struct{ rec, blk, lkr, lkb int64 }
+	var poss []pos
+	for _, rec := range []int64{0, 1, 3} {
+		for _, blk := range []int64{0, 2} {
+			for _, d := range []int64{0, 1, 4} { // last-known position = content position + d blocks
+				poss = append(poss, pos{rec, blk, rec + (blk+d)/3, (blk + d) % 3})
+			}
+		}
+	}
+	const recordSize = 3
+	nm := []string{"/a", "/b", "/c"}
+	var rec func(k int, cur []pos)
+	rec = func(k int, cur []pos) {
+		if k > 0 {
+			p := NewMetadataPersister(filepath.Join(dir, "i.sqlite"))
+			if err := p.Open(); err != nil {
+				t.Fatal(err)
+			}
+			if err := p.PurgeAllHeaders(ctx); err != nil {
+				t.Fatal(err)
+			}
+			var best int64 = -1
+			var wantR, wantB int64
+			for i, c := range cur {
+				h := &config.Header{Name: nm[i], Typeflag: '0', Record: c.rec, Block: c.blk, Lastknownrecord: c.lkr, Lastknownblock: c.lkb, Paxrecords: "{}"}
+				if i == 1 {
+					h.Deleted = 1
+				}
+				if err := p.UpsertHeader(ctx, h, true); err != nil {
+					t.Fatal(err)
+				}
+				if loc := c.lkr*recordSize + c.lkb; loc > best {
+					best, wantR, wantB = loc, c.lkr, c.lkb
+				}
+			}
+			r, b, err := p.GetLastIndexedRecordAndBlock(ctx, recordSize)
+			cases++
+			if err != nil || r*recordSize+b != best {
+				if bad < 8 {
+					fmt.Printf("BOUNDED-VIOLATION sql:LastIndexed rows(record,block,lastknownrecord,lastknownblock)=%v got=(%d,%d) err=%v want=(%d,%d)\n", cur, r, b, err, wantR, wantB)
+				}
+				bad++
+			}
+			p.sqlite.DB.Close()
+		}
+		if k == boundedMaxRows() {
+			return
+		}
+		for _, c := range poss {
+			rec(k+1, append(append([]pos{}, cur...), c))
+		}
+	}
+	rec(0, nil)
+	fmt.Printf("BOUNDED-OK sql:LastIndexed cases=%d failing=%d maxrows=%d positions=%d\n", cases, bad, boundedMaxRows(), len(poss))
+	if bad > 0 {
+		t.Fail()
+	}
+}
